@@ -164,6 +164,41 @@ fn main() {
             }
             std::process::exit(if fired { 1 } else { 0 });
         }
+        "tsan-selftest" => {
+            // a deliberate data race: proves that the sanitizer build reports races and that the
+            // report parser sees them
+            static mut RACY: u64 = 0;
+            let ts: Vec<_> = (0..2)
+                .map(|_| {
+                    std::thread::spawn(|| {
+                        for _ in 0..1000 {
+                            unsafe {
+                                let p = std::ptr::addr_of_mut!(RACY);
+                                p.write_volatile(p.read_volatile() + 1);
+                            }
+                        }
+                    })
+                })
+                .collect();
+            for t in ts {
+                let _ = t.join();
+            }
+            println!("selftest done");
+            std::process::exit(0);
+        }
+        "mirirun" => {
+            // reduced in-process corpus for `cargo +nightly miri run --no-default-features -- mirirun <ID>`
+            install_quiet_panic_hook();
+            let id = args.get(2).map(|s| s.as_str()).unwrap_or("C07");
+            let seed: u64 = args.get(3).and_then(|s| s.parse().ok()).unwrap_or(orch::DEFAULT_SEED);
+            let cases: u64 = args.get(4).and_then(|s| s.parse().ok()).unwrap_or(30);
+            let (n, v) = if id == "C08" { checks::c08::miri_run(seed, cases) } else { checks::c07::miri_run(seed, cases) };
+            println!("MIRI-SUMMARY property={} inputs_or_runs={} oracle_violations={}", id, n, v.len());
+            for x in &v {
+                println!("MIRI-ORACLE-VIOLATION {}", x);
+            }
+            std::process::exit(if v.is_empty() { 0 } else { 1 });
+        }
         "serve" => {
             if args.len() < 7 {
                 usage();
